@@ -232,10 +232,15 @@ def r10_2(chk, repo, cr):
     tmpl = string_value(fa[0][1].as_atom()[1])
     fields = [f for f in tmpl.split() if f.startswith("{")]
     args = fa[0][2]
-    oka = len(fields) == 5 and len(args) == 3 and args[2].as_atom() and args[2].as_atom()[0] == "starred"
+    oka = len(fields) in (5, 6) and len(args) == len(fields) - 2 and args[2].as_atom() and args[2].as_atom()[0] == "starred"
     idx_l = args[0].key() if oka else ""
     okorder = oka and "asymmetric_unit.labels" in idx_l and "site_positions" in args[2].key()
-    chk.ob("R10.2", CR, wq, "an atom line is: label, SFAC index, x, y, z (blank separated)", bool(okorder), found=f"{tmpl!r} <- {[str(a)[:50] for a in args]}")
+    chk.ob("R10.2", CR, wq, "an atom line is: label, SFAC index, x, y, z [, occupancy] (blank separated)", bool(okorder),
+           found=f"{tmpl!r} <- {[str(a)[:50] for a in args]}")
+    # the reader takes a sixth token as the occupancy: the format carries it, so the writer has to write it
+    okocc = len(fields) == 6 and len(args) == 4 and "occupation" in args[3].key() and "asymmetric_unit" in args[3].key()
+    chk.ob("R10.2", CR, wq, "the occupancy of every site is written as the sixth field of its atom line (the reader takes token 5 as the occupancy)",
+           okocc, fingerprint="res-occupancy", expected="'{label} {sfac} {x} {y} {z} {occupancy}'", found=tmpl)
     sf = [e for e in wev.events if e.kind == "assign" and e.name == "atom_sfac"]
     okplus = bool(sf) and "1 + " in sf[0].value.key() and ".index(" in sf[0].value.key()
     chk.ob("R10.2", CR, wq, "the SFAC index written is the 1-based position of the atom's element in the SFAC list", okplus,
@@ -254,6 +259,10 @@ def r10_2(chk, repo, cr):
     okpos = pos is not None and len(pos) == 3 and all(f"{line_p}.split()[(slice 2 5 None)]" in x.key() for x in pos)
     chk.ob("R10.2", SX, "_parse_atom_line", "the reader takes token 0 as label, token 1 (minus one) as SFAC index, tokens 2:5 as x, y, z",
            okr and okpos, found=str({k: str(v)[:60] for k, v in r.items()}))
+    occ_r = r.get("occupation")
+    chk.ob("R10.2", SX, "_parse_atom_line", "the reader takes token 5, when present, as the occupancy", occ_r is not None and
+           f"float({line_p}.split()[5])" in occ_r.key() or (occ_r is not None and f"{line_p}.split()[5]" in occ_r.key()), fingerprint="res-occupancy-reader",
+           found=str(occ_r)[:100])
     # CELL
     cv = sx.ev("_parse_cell")
     rc = dict_items(cv.returns[0].value)
